@@ -569,6 +569,8 @@ class FnVerifier:
         return None
 
     def log_type(self, evname):
+        if evname.startswith("call:"):
+            return T.Int  # the implicit per-callee call log of modular calls
         for ext in self.c.externals.values():
             if ext.event == evname and getattr(ext, "log_type", None) is not None:
                 return ext.log_type
@@ -622,14 +624,19 @@ class FnVerifier:
                             if ext.event:
                                 names.add(ext.event)
                     if not hit:
+                        direct = dn == last or dn == "self." + last  # `f(..)` / `self.f(..)`: the callee is identified by its name
                         cc_ = self.find_contract(last)
-                        if cc_ is None and dn.startswith("self."):
+                        if cc_ is not None and not direct:
+                            unknown = True  # `x.y.f(..)`: a same-named contract may or may not be the callee - stay conservative
+                            continue
+                        if cc_ is None and dn == "self." + last:
                             try:
                                 cc_ = self.find_contract(last, recv_cls=self.c.target.split("::")[1].split(".")[0])
                             except EngineError:
                                 cc_ = None
                         if cc_ is not None and cc_.emits is not None:
                             names.update(cc_.emits)  # a callee under contract with a declared event frame
+                            names.add("call:" + short_target(cc_.target).split("::")[1].split(".")[-1])  # the implicit call log of modular calls
                         elif cc_ is not None or dn.startswith("self."):
                             unknown = True
         return None if unknown else names
